@@ -499,6 +499,14 @@ func ExploreSched(job SchedJob) SchedJobResult {
 		}
 		out.SeqRefs = len(refs)
 	}
+	// determinism self-test (R4): the default schedule run twice must give identical observations and choice points
+	if len(job.Prefix) == 0 {
+		a, b := runScenario(sc, nil, nil), runScenario(sc, nil, nil)
+		if a.Key != b.Key || len(a.Points) != len(b.Points) || a.Abnormal != b.Abnormal {
+			out.Err = fmt.Sprintf("scenario %s is not deterministic under the scheduler: %q/%d points vs %q/%d points", sc.Name, a.Key, len(a.Points), b.Key, len(b.Points))
+			return out
+		}
+	}
 	deadline := time.Now().Add(time.Duration(job.Budget) * time.Second)
 	var explore func(prefix []int)
 	explore = func(prefix []int) {
